@@ -449,6 +449,129 @@ func checkTablesFrozen(e *Env, p *load.Program, pkgPath, rule string) {
 			}
 		}
 	}
+	// the same through a helper: a function that writes through one of its parameters (directly or by handing it on),
+	// called with a table
+	var rootParam func(v ssa.Value, depth int) *ssa.Parameter
+	rootParam = func(v ssa.Value, depth int) *ssa.Parameter {
+		if depth > 6 {
+			return nil
+		}
+		switch x := v.(type) {
+		case *ssa.Parameter:
+			return x
+		case *ssa.UnOp:
+			if x.Op == token.MUL {
+				return rootParam(x.X, depth+1)
+			}
+		case *ssa.FieldAddr:
+			return rootParam(x.X, depth+1)
+		case *ssa.IndexAddr:
+			return rootParam(x.X, depth+1)
+		case *ssa.Field:
+			return rootParam(x.X, depth+1)
+		case *ssa.Slice:
+			return rootParam(x.X, depth+1)
+		case *ssa.ChangeType:
+			return rootParam(x.X, depth+1)
+		}
+		return nil
+	}
+	paramIndex := func(f *ssa.Function, pr *ssa.Parameter) int {
+		for i, q := range f.Params {
+			if q == pr {
+				return i
+			}
+		}
+		return -1
+	}
+	type pkey struct {
+		f *ssa.Function
+		i int
+	}
+	written := map[pkey]token.Pos{}
+	for _, f := range funcs {
+		for _, b := range f.Blocks {
+			for _, in := range b.Instrs {
+				var pr *ssa.Parameter
+				switch x := in.(type) {
+				case *ssa.MapUpdate:
+					pr = rootParam(x.Map, 0)
+				case *ssa.Call:
+					if bi, ok := x.Call.Value.(*ssa.Builtin); ok && bi.Name() == "delete" && len(x.Call.Args) > 0 {
+						pr = rootParam(x.Call.Args[0], 0)
+					}
+				case *ssa.Store:
+					pr = rootParam(x.Addr, 0)
+				}
+				if pr != nil {
+					if i := paramIndex(f, pr); i >= 0 {
+						if _, ok := written[pkey{f, i}]; !ok {
+							written[pkey{f, i}] = in.Pos()
+						}
+					}
+				}
+			}
+		}
+	}
+	for changed, round := true, 0; changed && round < 8; round++ {
+		changed = false
+		for _, f := range funcs {
+			for _, b := range f.Blocks {
+				for _, in := range b.Instrs {
+					c, ok := in.(ssa.CallInstruction)
+					if !ok {
+						continue
+					}
+					cal := c.Common().StaticCallee()
+					if cal == nil {
+						continue
+					}
+					for ai, a := range c.Common().Args {
+						pos, w := written[pkey{cal, ai}]
+						if !w {
+							continue
+						}
+						if pr := rootParam(a, 0); pr != nil {
+							if i := paramIndex(f, pr); i >= 0 {
+								if _, ok := written[pkey{f, i}]; !ok {
+									written[pkey{f, i}] = pos
+									changed = true
+								}
+							}
+						}
+					}
+				}
+			}
+		}
+	}
+	for _, f := range funcs {
+		if f.Name() == "init" && f.Synthetic != "" && f.Pkg == sp {
+			continue // part of the initialisation itself
+		}
+		for _, b := range f.Blocks {
+			for _, in := range b.Instrs {
+				c, ok := in.(ssa.CallInstruction)
+				if !ok {
+					continue
+				}
+				cal := c.Common().StaticCallee()
+				if cal == nil {
+					continue
+				}
+				for ai, a := range c.Common().Args {
+					pos, w := written[pkey{cal, ai}]
+					if !w {
+						continue
+					}
+					if g := rootGlobal(a, 0); g != nil && isTable(g) {
+						n++
+						r.Unknown(rule, g.Name()+"/written-through/"+load.FuncName(cal)+"/called-in/"+load.FuncName(f), p.Pos(in.Pos()),
+							fmt.Sprintf("%s hands the package-level table %s to %s, which writes through that parameter (%s): the table no longer has the value of its initialiser (which is what the rules compare with the oracle), and the order of such writes may depend on map iteration", load.FuncName(f), g.Name(), load.FuncName(cal), p.Pos(pos)))
+					}
+				}
+			}
+		}
+	}
 	// the same through an alias: the tables of an arch.Info are exported map-valued fields, and a struct copy shares them
 	if pkgPath == load.PkgArch {
 		isTableField := func(v ssa.Value) (string, bool) {
